@@ -166,7 +166,7 @@ func propC16(r *kernel.Run) {
 func c16Adversary(r *kernel.Run, tp *kernel.Tape, w *Wire, creds *types.NodeCredentials, id *Ident) {
 	nonce := make([]byte, 32)
 	rand.Read(nonce)
-	sb, _ := proto.Marshal(mkStruct(r, 2))
+	sb := detMarshal(mkStruct(r, 2))
 	req := &types.GenerateServerCertificatesRequest{CertificatePublicKeyPkix: id.Pkix, Nonce: nonce, NonceSignature: ed25519.Sign(id.Priv, nonce), ClientState: sb}
 	kind := Pick2(tp, "unsigned", "forged", "signed-by-other-key", "unsigned+skip", "forged+skip")
 	switch {
